@@ -102,6 +102,11 @@ Theorem C17_full_modulo_reserved : forall e, in_quantifier e = true -> reserved_
 Proof. exact full_modulo_reserved. Qed.
 Print Assumptions C17_full_modulo_reserved.
 
+(* the same for a source file with several entity declarations (they share the three packages) *)
+Theorem C17_file_acceptance : forall es, file_quantifier es = true -> exists cs, compile_file es = Ok cs.
+Proof. exact file_acceptance. Qed.
+Print Assumptions C17_file_acceptance.
+
 Theorem C17_acceptance : forall e, in_quantifier e = true -> reserved_free e = true -> exists cs, compile e = Ok cs.
 Proof. exact acceptance. Qed.
 Print Assumptions C17_acceptance.
